@@ -291,15 +291,10 @@ func (m *Model) deleteMode(id string, opts ...resource.WriteOption) error {
 		return ErrDeleteActiveMode
 	}
 
-	msg, err := m.modes.Delete(id, opts...)
-	if err != nil {
-		return err
-	}
-	if msg == nil {
-		return ErrModeNotFound
-	}
-
-	return nil
+	// an absent mode makes Delete return a NotFound error, unless resource.WithAllowMissing(true)
+	// was passed, in which case deleting it succeeds
+	_, err := m.modes.Delete(id, opts...)
+	return err
 }
 
 // UpdateMode will modify one of the modes stored in this device.
